@@ -123,6 +123,13 @@ CLAIMED = {
              "addressed well and the identity elsewhere. The recipe clause (discarded amounts in tracking) is decided under C09.",
              technique="Coq proof (filter lemmas over contents, fold over wells); differential correspondence",
              design="5 C17"),
+ 'C19': dict(text="Theorems (every magnitude incl. sub-micro, every incoming prefix, every substance kind, every configuration): "
+             "get_human_readable_unit returns a (value, prefix) pair denoting exactly |v| in the incoming unit, with value >= 1 unless the micro "
+             "prefix is reached, and in [1,1000) for amounts from 1e-6 to 1 base units; convert_from_storage_to_standard_format returns "
+             "exactly the stored amount in g / L / U. The instruction TEXTS (constructor, transfer, fill_to, dilute, create_solution_from, "
+             "recipe fill/dilute steps) are checked against the actual deltas by an oracle on the implementation (testing; partial).",
+             technique="Coq proof over Q (case analysis of the rescaling cascade, field); enumerated correspondence over magnitudes x prefixes x kinds; instruction-text read-back oracle",
+             design="5 C19"),
 }
 checks = []
 for p in props:
